@@ -234,7 +234,9 @@ def stochastic_raytracing(  # TODO: add test
             light = light and not grid[pos].blocks_vision
 
     probs = np.nan_to_num(counts_num / counts_den)
-    visibility = rng.random(probs.shape) <= probs
+    # NOTE: strict inequality, because samples are in [0, 1):  a cell with
+    # probability 0 is never visible, and one with probability 1 always is
+    visibility = rng.random(probs.shape) < probs
     return visibility
 
 
